@@ -11,7 +11,14 @@ Three scenario families, all through the public API:
        identical trajectory and final result.
  (iii) ensemble  : Lattice/Buckshot with NelderMead/Powell members: Solve() vs Step() until Terminated() vs
        Solve(step=True), and Solve() under the same maps via SetMapper: identical best solution, best energy and
-       total number of evaluations.
+       total number of evaluations; furthermore identical per-member results (solution, energy, generations,
+       evaluations of every member) and identical recorded energies of the best member (if a generation monitor is set).
+       Hypothesis "the members draw no random numbers while running" is tested on every scenario (map_probe) and
+       scenarios outside it are skipped (e.g. SetStrictRanges(clip=False) re-draws exterior candidates).
+ (iv)  ensemble2 : same clauses on ensembles (<= 6 members, <= 200 generations) whose members stop on a condition over
+       their whole population / simplex (CandidateRelativeTolerance, PopulationSpread, Or/And compounds,
+       VTRChangeOverGeneration) so that they finish at different ensemble steps, with every range mode
+       (tight/clip), with and without generation / evaluation monitors; a step-wise mode is also run under a map.
 """
 import math
 import random
@@ -333,6 +340,16 @@ def work_de2(spec):
 
 
 # ----------------------------------------------------------------------------- (iii) ensembles
+PRE = 'a member already satisfied its termination on its drawn start population, before its first Step'
+
+
+def _terminated_unstarted(m):
+    try:
+        return m is not None and not len(m._stepmon) and not m.generations and bool(m.Terminated())
+    except Exception:      # noqa
+        return False
+
+
 def run_ens(spec, mode, mapname):
     """returns (bestSolution, bestEnergy, total evaluations, per-member results, best member's recorded energies)"""
     from mystic.monitors import Monitor
@@ -374,18 +391,23 @@ def run_ens(spec, mode, mapname):
     s.SetTermination(_termination(spec['term'], tol))
     if mapname != 'builtin':
         s.SetMapper(MAPS[mapname])
-    if mode == 'solve':
-        s.Solve(cost)
-    elif mode == 'solve-step':
-        s.Solve(cost, step=True)
-    else:
-        s.SetObjective(cost)
-        guard = 0
-        while not s.Terminated() and guard < 4000:
-            s.Step()
-            guard += 1
-        if guard >= 4000:
-            return ('no termination after 4000 steps',)
+    try:
+        if mode == 'solve':
+            s.Solve(cost)
+        elif mode == 'solve-step':
+            s.Solve(cost, step=True)
+        else:
+            s.SetObjective(cost)
+            guard = 0
+            while not s.Terminated() and guard < 4000:
+                s.Step()
+                guard += 1
+            if guard >= 4000:
+                return ('no termination after 4000 steps',)
+    except Exception as e:      # noqa -- situation of the failure, tested on the concrete members (sub-case of the key)
+        if 'pickl' not in (str(e) + type(e).__name__).lower() and any(_terminated_unstarted(m) for m in s._allSolvers):
+            return ('EXC', type(e).__name__, str(e)[:100], PRE)
+        raise
     members = tuple((tuple(_r(v) for v in m.bestSolution), _r(m.bestEnergy), int(m.generations), int(m.evaluations))
                     for m in s._allSolvers)
     path = tuple(_r(e) for e in s._stepmon._y) if spec.get('genmon') else ()
@@ -420,7 +442,7 @@ def gen_ens2_specs(seed, n):
         while np.prod(nbins) > 6:       # <= 6 members: a step-wise run costs O(members x generations^2)
             nbins = [rng.choice([1, 2, 3]) for _ in range(ndim)]
         nested = rng.choice(['NM', 'NM', 'NM', 'Powell'])
-        term = rng.choice(POP_TERMS if nested == 'NM' else ['spread', 'and', 'vtrcog', 'cog'])   # crt needs nPop > 1
+        term = rng.choice(POP_TERMS if nested == 'NM' else ['and', 'vtrcog', 'cog', 'ncog'])   # crt, spread: nPop > 1
         tight, clip = rng.choice(RANGE_MODES)
         out.append(dict(kind='ens2', ens=rng.choice(['lattice', 'buckshot']), nested=nested, ndim=ndim,
                         nbins=nbins, npts=rng.choice([2, 3, 5]),
@@ -460,6 +482,11 @@ def ens_diff(ref, r):
     return '', 'equal'
 
 
+def pre_sub(ref, r):
+    """sub-case: one of the two runs failed because a member was 'terminated' before it ever stepped (see PRE)"""
+    return '#member-terminated-before-first-step' if PRE in (ref[-1], r[-1]) else ''
+
+
 def check_ens(spec, maps, res, extra=None):
     def go(mode, m):
         r = safe(run_ens, spec, mode, m)
@@ -487,6 +514,7 @@ def check_ens(spec, maps, res, extra=None):
             if spec['instance'] == 'bare' and r[0] == 'EXC' and 'NoneType' in r[2]:
                 sub = '#configured-nested-instance-without-objective'
             clause, txt = ens_diff(ref, r)
+            sub = sub or pre_sub(ref, r)
             res.violation(P + 'ensemble/step-wise-differs-from-run-to-completion' + clause + sub,
                           '%s: Solve[builtin] vs %s[%s]: %s' % (tag, mode, m, txt),
                           jsonable(dict(spec, mode=mode, map=m)))
@@ -499,7 +527,7 @@ def check_ens(spec, maps, res, extra=None):
         res.case('ens:solve:%s:%s' % (m, tag))
         if r != ref:
             clause, txt = ens_diff(ref, r)
-            res.violation(P + 'ensemble/result-depends-on-map' + clause,
+            res.violation(P + 'ensemble/result-depends-on-map' + clause + pre_sub(ref, r),
                           '%s: builtin vs %s: %s' % (tag, m, txt), jsonable(dict(spec, mode='solve', map=m)))
 
 
@@ -527,11 +555,18 @@ def run(tier='quick', seed=0):
              'Powell), trajectory over <= 10 Steps compared == with the sorted order; (ii) seeded DE2 settings, builtin '
              'map vs serial/reversed/shuffled/thread-pool (thorough: + process-pool) maps, trajectory and Solve result '
              'compared ==; (iii) seeded Lattice/Buckshot ensembles with NM/Powell members: Solve vs Step-until-Terminated '
-             'vs Solve(step=True) and Solve under each map: (bestSolution, bestEnergy, total evaluations) compared ==. '
+             'vs Solve(step=True) and Solve under each map: (bestSolution, bestEnergy, total evaluations), per-member '
+             '(solution, energy, generations, evaluations) and the best member\'s recorded energies compared ==; (iv) the '
+             'same on ensembles whose members stop on population-based terminations (CRT, PopulationSpread, Or/And, '
+             'VTRCOG) under all range modes and monitors, one step-wise mode also under a map; ensemble scenarios whose '
+             'members draw random numbers while running (tested per scenario) are skipped. '
              'distinct = distinct (solver, call order, range mode) / (scenario, map) / (scenario, mode, map)',
         bound='%d call sets per solver type (all permutations each), %d DE2 scenarios x 4 maps, %d ensemble scenarios '
-              'x 3 modes x 4 maps%s; dims 1-4, <= 10 steps (i), <= 30 generations (ii), <= 60 generations/member (iii)'
-              % (n_perm, n_de2, n_ens, '' if quick else ', process-pool map on 40 DE2 + 40 ensemble scenarios'))
+              'x 3 modes x 4 maps, %d population-terminated ensemble scenarios x (3 modes x 4 maps + 1 step-wise mode '
+              'under a map)%s; dims 1-4, <= 10 steps (i), <= 30 generations (ii), <= 60 generations/member (iii), <= 6 '
+              'members x <= 200 generations (iv)'
+              % (n_perm, n_de2, n_ens, n_ens2, '' if quick else ', process-pool map on 40 DE2 + 40 + 40 ensemble '
+                 'scenarios'))
     specs = gen_perm_specs(seed, n_perm, sizes) + gen_de2_specs(seed, n_de2) + gen_ens_specs(seed, n_ens) + \
         gen_ens2_specs(seed, n_ens2)
     specs.sort(key=lambda sp: -math.factorial(len(sp['calls'])) if sp['kind'] == 'perm' else 0)
@@ -551,13 +586,17 @@ def run(tier='quick', seed=0):
         try:
             for spec in gen_de2_specs(seed + 1, 40):
                 check_de2(spec, ['processes'], res, res.extra)
-            for spec in gen_ens_specs(seed + 1, 40):
+            for spec in gen_ens_specs(seed + 1, 40) + gen_ens2_specs(seed + 1, 40):
                 check_ens(spec, ['processes'], res, res.extra)
         finally:
             _POOL[0].close()
             _POOL[0] = None
     else:
         res.extra['not_explored'] = ['process-based maps (thorough tier only)']
+    if res.extra.get('outside_hypothesis'):
+        res.extra['ensemble_scenarios_skipped_members_draw_random_numbers'] = \
+            res.extra.get('ensemble_scenarios_skipped_members_draw_random_numbers', 0) + res.extra['outside_hypothesis']
+    res.extra.pop('outside_hypothesis', None)
     for k in ('aborted', 'not_explored'):
         if k in res.extra:
             res.extra[k] = sorted(set(res.extra[k]))[:20]
